@@ -243,7 +243,7 @@ def _io_expr(tr, e, want):
                 while isinstance(tt, tuple) and tt[0] == "Prod":
                     parts.append(tt[1]); tt = tt[2]
                 parts.append(tt)
-                if len(parts) >= 2 and all(x == "Int" for x in parts):
+                if len(parts) >= 2 and all(x == "Int" for x in parts) and not _io_is_arr(want):
                     n = tr.bindname()
                     ks = ", ".join(proj(k, i, len(parts)) for i in range(len(parts)))
                     return s0 + s1 + [f"Py.bind (Py.ndGet {c} [{ks}]) fun {n} =>"], n, t[1]
